@@ -201,6 +201,22 @@ def flag_style_classes(m):
     return out
 
 
+def check_scalar_daggers(ctx):
+    """R11.3: a scalar is its own dagger exactly when it is real; otherwise the dagger is the scalar of the conjugate"""
+    m = ctx.model
+    si = m.func(GATES + ".Scalar.__init__")
+    ctx.analysed(GATES + ".Scalar.__init__", GATES + ".Scalar.dagger", GATES + ".Sqrt.dagger")
+    fl = next((s.value for s in si.body if isinstance(s, ast.Assign) and ast.unparse(s.targets[0]) == "_dagger"), None)
+    shape.match(ctx, "R11.3", GATES + ".Scalar.__init__:self-adjoint", fl, ["None if data.conjugate() == data else False", "None if data == data.conjugate() else False"], {}, mod=GATES, node=si, sig="scalar-self-adjoint",
+                required="marked self-adjoint exactly when the number equals its conjugate")
+    sd = m.func(GATES + ".Scalar.dagger")
+    shape.match(ctx, "R11.3", GATES + ".Scalar.dagger", ret_expr(sd.body), "self if self._dagger is None else Scalar(self.array[0].conjugate(), name=self._name, is_mixed=self.is_mixed)", {}, mod=GATES, node=sd,
+                sig="scalar-dagger", required="itself when self-adjoint, else the scalar of the conjugate number with the same name and mixedness")
+    qd = m.func(GATES + ".Sqrt.dagger")
+    shape.match(ctx, "R11.3", GATES + ".Sqrt.dagger", ret_expr(qd.body), "self if self._dagger is None else Sqrt(self.data.conjugate())", {}, mod=GATES, node=qd, sig="sqrt-dagger",
+                required="itself when self-adjoint, else the square root of the conjugate")
+
+
 def check_flag_readers(ctx):
     m = ctx.model
     flags = flag_style_classes(m)
@@ -467,12 +483,19 @@ def check(ctx):
     check_closed_forms(ctx)
     check_rotation_dagger(ctx)
     check_flag_readers(ctx)
+    check_scalar_daggers(ctx)
     check_eval_and_states(ctx)
     check_rewire(ctx)
     ctx.rule("R11.7", "the pure evaluation is the tensor functor whose loop invariant and flag discipline are decided by C09; bras, kets and gates are daggered as C02 R02.4 requires")
     ctx.depend("R11.7", "C08", "the adjoint of an evaluated gate is the conjugate transpose of its matrix (Tensor.dagger exchanges the dom and cod blocks and conjugates)", rules={"R08.3"}, mod="discopy.tensor")
     ctx.depend("R11.7", "C10", "rewire conjugates the gate by Box.permutation, circuits are permuted with Circuit.swap / permutation: each realises the requested permutation", mod="discopy.monoidal")
     ctx.depend("R11.7", "C09", "eval() applies tensor.Functor layer by layer: each box is contracted on the axes of its own wires", rules={"R09.1", "R09.2"}, mod="discopy.tensor")
+    try:
+        ctx.depend("R11.7", "C12", "a circuit of pure boxes is evaluated by the tensor functor: is_mixed must be false for it (swaps of two qubits included) and select the functor",
+                   rules={"R12.6"}, constructs=["Swap.__init__:is_mixed", "Circuit.is_mixed", "Circuit.eval:mode", "Ty.count"], mod="discopy.quantum.circuit")
+    except AnalysisError:
+        if not any(not o.ok for o in ctx.obs):
+            raise
     from .c02 import check_daggers
     check_daggers(ctx, modules={GATES}, rule="R11.7", kinds=("types", "involution", "raises", "not-a-box", "flag", "involution-raises"))
     ctx.floor("R11.6", 3)
